@@ -9,6 +9,12 @@ TARGETS = [
     "contracts.exact_c01:lemma_knn_exact",
     "contracts.exact_c01:exact_fit_predict",
     "contracts.exact_c01:trend_reproduces_polynomial",
+    # the callee contracts the spline lemma is proved against (modular proof: a change inside one of them is
+    # noticed only by that callee's own obligations, so they are discharged by this check as well)
+    "verde.spline:greens_func_numpy",
+    "verde.spline:predict_numpy",
+    "verde.spline:jacobian_numpy",
+    "verde.spline:Spline.jacobian",
 ]
 MIN_OBLIGATIONS = {"quick": 10, "thorough": 10}
 EXPLANATION = (
